@@ -325,6 +325,67 @@ fn grids(args: &Args, rep: &mut Report) {
             len = 1 + (len + 11) % 1439;
         }
     }
+    // 11. cross grids INSIDE one selector: special dates x special dates x start offset x end offset
+    //     for date ranges; all week pairs x steps; special year pairs x steps; nth weekday x day offset.
+    //     Evaluated on every day of a common year, a leap year, the years around them and a non-leap
+    //     century year. The offset pairs rotate with the seed in the quick tier (1/8 per run).
+    {
+        let mut four_years: Vec<NaiveDate> = Vec::new();
+        for (a, b) in [((2022, 12, 1), (2026, 1, 31)), ((2099, 11, 1), (2101, 2, 28))] {
+            let mut d = dates::ymd(a.0, a.1, a.2);
+            while d <= dates::ymd(b.0, b.1, b.2) {
+                four_years.push(d);
+                d = d.succ_opt().unwrap();
+            }
+        }
+        let special = ["Jan 01", "Jan 31", "Feb 01", "Feb 28", "Feb 29", "Feb 30", "Feb 31", "Mar 01", "Apr 30", "Apr 31", "Jun 15", "Dec 01", "Dec 30", "Dec 31"];
+        let offs: [i64; 23] = [0, 1, -1, 7, -7, 31, -31, 60, -60, 70, -70, 306, -306, 307, -307, 320, -320, 365, -365, 366, -366, 400, -400];
+        let fmt_off = |o: i64| if o == 0 { String::new() } else { format!(" {}{} day{}", if o < 0 { '-' } else { '+' }, o.abs(), if o.abs() == 1 { "" } else { "s" }) };
+        let mut pair = 0u64;
+        for a in special {
+            for b in special {
+                for oa in offs {
+                    for ob in offs {
+                        pair += 1;
+                        if !thorough && pair % 8 != args.seed % 8 {
+                            continue;
+                        }
+                        one(format!("{a}{}-{b}{} 10:00-12:00", fmt_off(oa), fmt_off(ob)), "cross_date_range", four_years.clone(), rep);
+                    }
+                }
+            }
+        }
+        for a in 1..=53u32 {
+            for b in 1..=53u32 {
+                for step in [2u32, 3, 4, 5, 6, 13, 26, 53] {
+                    pair += 1;
+                    if !thorough && pair % 4 != args.seed % 4 {
+                        continue;
+                    }
+                    one(format!("week {a:02}-{b:02}/{step}"), "cross_week_range", four_years.clone(), rep);
+                }
+            }
+        }
+        let ys: [i32; 9] = [1900, 1901, 2000, 2023, 2024, 2025, 2100, 9998, 9999];
+        for a in ys {
+            for b in ys {
+                for step in [1u32, 2, 3, 4, 5, 25, 100, 400] {
+                    if a == b && step == 1 {
+                        continue;
+                    }
+                    let days: Vec<NaiveDate> = (1900..=9999i32).filter(|y| (y - a) % 7 == 0 || ys.contains(y) || (2020..=2030).contains(y) || (y - b).abs() <= 2).flat_map(|y| [dates::ymd(y, 1, 1), dates::ymd(y, 12, 31)]).collect();
+                    one(format!("{a}-{b}{}", if step == 1 { String::new() } else { format!("/{step}") }), "cross_year_range", days, rep);
+                }
+            }
+        }
+        for wd in wds {
+            for n in [1i32, 2, 3, 4, 5, -1, -2, -3, -4, -5] {
+                for o in [1i64, -1, 2, -2, 6, -6, 7, -7, 8, -8, 27, -27, 31, -31] {
+                    one(format!("{wd}[{n}]{}", fmt_off(o)), "cross_nth_offset", four_years.clone(), rep);
+                }
+            }
+        }
+    }
     // 10. sizes: 1..40 entries in every kind of list (spans, rules with each separator, weekdays with
     //     positions, dates, years, weeks), so that a threshold on a length is crossed one by one
     let mut two_years: Vec<NaiveDate> = Vec::new();
